@@ -146,6 +146,7 @@ type runState struct {
 	nextWID   int
 	pathLimit time.Duration
 	maxWit    int
+	deadline  time.Time // wall-clock cap of the whole exploration: afterwards no new path is started (=> INCONCLUSIVE unless a violation was confirmed)
 	cross     map[*worker][2]int // per worker process: assertion queries re-discharged by cvc5/z3-new, agreed
 }
 
@@ -164,7 +165,7 @@ func (rs *runState) explore(e *Entry, params map[string]int, maxPaths int) *entr
 	idle := append([]*worker{}, rs.workers...)
 	dispatched := 0
 	for len(stack) > 0 || inflight > 0 {
-		for len(stack) > 0 && len(idle) > 0 && dispatched < maxPaths {
+		for len(stack) > 0 && len(idle) > 0 && dispatched < maxPaths && time.Now().Before(rs.deadline) {
 			it := stack[len(stack)-1]
 			stack = stack[:len(stack)-1]
 			w := idle[len(idle)-1]
@@ -472,9 +473,16 @@ func checkMain(id, tier string) int {
 	}
 	rs := &runState{cfg: cfg, tier: tier, work: work, initFile: initFile, funcs: map[string]bool{}, externals: map[string]bool{},
 		rng: rand.New(rand.NewSource(seed)), pathLimit: 120 * time.Second, maxWit: 24}
+	rs.deadline = t0.Add(20 * time.Minute)
 	if tier == "thorough" {
 		rs.pathLimit = 900 * time.Second
 		rs.maxWit = 200
+		rs.deadline = t0.Add(100 * time.Minute)
+	}
+	if v := os.Getenv("GOSYM_DEADLINE_MIN"); v != "" {
+		if n, err := strconv.Atoi(v); err == nil && n > 0 {
+			rs.deadline = t0.Add(time.Duration(n) * time.Minute)
+		}
 	}
 	if v, ok := cfg.ReplayPaths[tier]; ok {
 		rs.maxWit = v
@@ -737,7 +745,7 @@ func checkMain(id, tier string) int {
 			inconclusive = append(inconclusive, fmt.Sprintf("%s: %d truncated paths %v", st.Entry, st.Truncated, st.TruncWhy))
 		}
 		if !st.Exhausted {
-			inconclusive = append(inconclusive, fmt.Sprintf("%s: path budget exhausted with work left", st.Entry))
+			inconclusive = append(inconclusive, fmt.Sprintf("%s: path budget or wall-clock cap exhausted with work left", st.Entry))
 		}
 		if len(st.MissingRch) > 0 {
 			inconclusive = append(inconclusive, fmt.Sprintf("%s: reachability witnesses not reached: %v (vacuity guard)", st.Entry, st.MissingRch))
